@@ -16,6 +16,7 @@ mod sc_agent;
 mod sc_codec;
 mod sc_tcpstream;
 mod sc_wire;
+mod sc_world;
 
 use crate::choices::Choices;
 use crate::core::*;
@@ -80,10 +81,11 @@ fn die(e: HarnessError) -> i32 {
 // ------------------------------------------------------------------------------------------------
 
 fn cmd_check(prop: &str, tier: &str) -> i32 {
-    let thorough = match std::env::var("VERIF_TIER").ok().as_deref().unwrap_or(tier) {
+    // the explicit argument wins; VERIF_TIER is only consulted when the argument is not a tier
+    let thorough = match tier {
         "thorough" => true,
         "quick" => false,
-        _ => tier == "thorough",
+        _ => std::env::var("VERIF_TIER").ok().as_deref() == Some("thorough"),
     };
     let Some(p) = plan::plan(prop, thorough) else {
         eprintln!("HARNESS-ERROR: property {prop} has no check (not claimed or unknown)");
